@@ -621,6 +621,20 @@ impl Model {
         }
     }
 
+    /// the implementation completed `op` with MaximumPacketSizeExceeded in this step, a limit is in
+    /// force and the request's packet may exceed it (upper end of its length window)
+    fn early_size_refusal(&self, op: usize) -> bool {
+        if !self.observed_size_refusals.contains(&op) {
+            return false;
+        }
+        let Some(mx) = self.m else { return false };
+        let hi = match &self.ops[op].spec {
+            OpSpec::Subscribe(_) => self.subscribe_len(op, 268_435_455),
+            _ => self.request_len(op, false),
+        };
+        hi as u64 > mx as u64
+    }
+
     fn complete(&mut self, op: usize, res: ResPat) {
         self.ops[op].st = St::Completing(res);
         if self.ops[op].alive {
@@ -1052,6 +1066,24 @@ impl Model {
                         self.subs[sb].receiver_alive = false;
                     }
                     self.hit("op-after-context-gone");
+                } else if self.early_size_refusal(op) {
+                    // The implementation refused the request for its size at this very poll and the
+                    // request may indeed exceed the limit: whether the handle or the context task
+                    // measures it is the implementation's business (C12 only says the operation
+                    // fails and nothing is written). Treated as refused on the spot.
+                    self.expected.push(Expect::Done {
+                        op,
+                        res: ResPat::Exact("Err:MaximumPacketSizeExceeded".into()),
+                    });
+                    self.ops[op].st = St::Done;
+                    self.live_handles -= 1;
+                    if let Some(sb) = self.ops[op].sub {
+                        self.subs[sb].receiver_alive = false;
+                    }
+                    self.hit("max-packet-size-refusal");
+                    if !self.handles_alive() {
+                        self.ctx_woken = true;
+                    }
                 } else {
                     self.queue.push_back(Msg::First(op));
                     self.ctx_woken = true;
